@@ -35,7 +35,7 @@ def shards(tier):
 def required_counters(tier):
     d = {f'monitor:bbox:{c}': 20 for c in gen.ALL_PIX + ['CompoundPixelRegion']}
     d.update({'judged:bbox-enclose': 1000, 'judged:bbox-minimal': 1000, 'judged:mask-bbox': 100, 'judged:ring': 100,
-              'exact_cases': 50})
+              'exact_cases': 50, 'history-steps': 50})
     return d
 
 
@@ -152,6 +152,14 @@ def run_case(case, obs):
         mark_exact(region, obs)
         bb = region.bounding_box          # judged by the monitor
         ring_check(region, bb, obs)
+        if case['rs'] % 3 == 0:
+            # mutate-then-reread on the same object
+            for _ in range(2):
+                gen.mutate_live(region, prng)
+                region.__dict__.pop('_vmon_exact', None)
+                obs.count('history-steps')
+                bb = region.bounding_box
+                ring_check(region, bb, obs)
         ny, nx = bb.shape
         cls = type(region).__name__
         if cls in gen.MASKABLE + ['CompoundPixelRegion'] and 0 < nx * ny <= 20000:
@@ -201,6 +209,10 @@ def run_case(case, obs):
 def shift_spec(spec, sx, sy):
     import copy
     s = copy.deepcopy(spec)
+    if 'origin' in s['p']:
+        s['p']['origin']['x'] += sx
+        s['p']['origin']['y'] += sy
+        return s
     for k, v in s['p'].items():
         if isinstance(v, dict) and v.get('t') == 'pix':
             if isinstance(v['x'], dict):
